@@ -1,0 +1,40 @@
+//go:build verif
+
+// Contracts for the deductive verifier under /verif (gvc). This file contains no
+// declarations: it is comment-only and excluded from normal builds by the tag.
+
+package frame
+
+// ---- view arithmetic (C11): a view is (data, off, len, cap, prefix); operations on views only re-base offsets ----
+
+//@ spec func wfFrame(f Frame) bool = 0 <= f.off && 0 <= f.len && f.len <= f.cap && -1 <= f.prefix && f.prefix < len(f.data)
+
+//@ func frame.Frame.Slice
+//@   panics_if i < 0 || j < i || j > f.cap
+//@   ensures  view: result.data == f.data && result.off == f.off+i && result.len == j-i && result.cap == f.cap-i && result.prefix == f.prefix
+//@   modifies nothing
+
+//@ func frame.Frame.Len
+//@   ensures result == f.len
+//@   modifies nothing
+
+//@ func frame.Frame.Cap
+//@   ensures result == f.cap
+//@   modifies nothing
+
+//@ func frame.Frame.IsZero
+//@   ensures result == (f.data == nil)
+//@   modifies nothing
+
+//@ func frame.Frame.NumOut
+//@   ensures result == len(f.data)
+//@   modifies nothing
+
+//@ func frame.Frame.Prefix
+//@   ensures result == f.prefix + 1
+//@   modifies nothing
+
+//@ func frame.Frame.Prefixed
+//@   panics_if prefix > len(f.data) || prefix < 0
+//@   ensures  result.data == f.data && result.off == f.off && result.len == f.len && result.cap == f.cap && result.prefix == prefix - 1
+//@   modifies nothing
